@@ -45,7 +45,9 @@ def configs(tier, seed):
         out.append(dict(kind="vis", pairs=shp[0], nodes=shp[1]))
     for (frames, animals, nodes) in ([(1, 1, 2), (1, 2, 1), (2, 1, 1)] + ([(2, 2, 1)] if tier == "thorough" else [])):  # (1,2,2): a path decision came back unknown (nonlinear OKS of two 2-node animals)
         out.append(dict(kind="fixed", frames=frames, animals=animals, nodes=nodes))
-    out.append(dict(kind="fixed", frames=1, animals=1, nodes=2, per_coord=True))  # x and y of a labelled point missing independently
+    out.append(dict(kind="fixed", frames=1, animals=1, nodes=2, per_coord=True))
+    out.append(dict(kind="fixed", frames=2, animals=1, nodes=1, drop=True))  # deleted predictions, incl. frames left without any
+    out.append(dict(kind="fixed", frames=1, animals=2, nodes=1, drop=True))  # x and y of a labelled point missing independently
     out.append(dict(kind="deletion", n_gt=2, n_pr=2))
     out.append(dict(kind="float", N=2 ** 16 if tier == "quick" else 2 ** 20, N_mono=64))  # F3 with counts <= 256 did not finish in 240 s
     return out
@@ -289,6 +291,8 @@ def _run_fixed(cfg):
         for f in range(F):
             gts = [_I(f"g{f}{a}", _sym_pose(f"g{f}{a}", N, pc)) for a in range(A)]
             prs = [_I(f"p{f}{a}", _sym_pose(f"g{f}{a}", N, pc), score=XF(z3.Real(f"sc{f}{a}"))) for a in range(A)]
+            if cfg.get("drop"):  # any subset of the (perfect) predictions may have been deleted, incl. all predictions of a frame
+                prs = [p_ for a, p_ in enumerate(prs) if ex.decide(z3.Bool(f"keep{f}{a}"))]
             pairs.append((_Frame(gts, f), _Frame(prs, f)))
         E = ev.Evaluator.__new__(ev.Evaluator)
         try:
@@ -306,7 +310,8 @@ def _run_fixed(cfg):
             fx = env[f"g{f}{a}_{k}#nan"]
             fy = env[f"g{f}{a}_{k}y#nan"] if pc else fx
             return ["nan" if fx else float(env[f"g{f}{a}_{k}_x"]), "nan" if fy else float(env[f"g{f}{a}_{k}_y"])]
-        return {"gt": {f"g{f}{a}": [pt(f, a, k) for k in range(N)] for f in range(F) for a in range(A)},
+        return {"keep": {f"{f}{a}": (bool(env[f"keep{f}{a}"]) if cfg.get("drop") else True) for f in range(F) for a in range(A)},
+                "gt": {f"g{f}{a}": [pt(f, a, k) for k in range(N)] for f in range(F) for a in range(A)},
                 "scores": {f"{f}{a}": float(env[f"sc{f}{a}"]) for f in range(F) for a in range(A)}}
     eps = Fraction(1, 10 ** 9)
     for E, mo_, voc, pck, dm in ex.run(path):
@@ -318,6 +323,16 @@ def _run_fixed(cfg):
             rep.violation("F0-no-exception", f"fixed-exception:{type(mo_).__name__}", f"evaluation of perfect predictions raised {type(mo_).__name__}: {str(mo_)[:120]}", extract(m, DefaultEnv(model_env(m))))
             continue
         rep.record("F0-no-exception", "unsat")
+        if cfg.get("drop"):
+            # conservation: every ground-truth instance is either matched or reported as missed, whatever was deleted (so deleting predictions
+            # cannot shrink the recall denominator); the kept perfect predictions are all matched
+            kept = sum(1 for f in range(F) for a in range(A) if ex.query([z3.Not(z3.Bool(f"keep{f}{a}"))]).status == "unsat")
+            ok = len(E.positive_pairs) + len(E.false_negatives) == F * A and len(E.positive_pairs) == kept
+            rep.record("FC-every-ground-truth-instance-is-matched-or-missed", "unsat" if ok else "sat")
+            if not ok:
+                m = ex.full_model()
+                rep.violation("FC-every-ground-truth-instance-is-matched-or-missed", "fixed-conservation", f"{len(E.positive_pairs)} pairs + {len(E.false_negatives)} false negatives for {F * A} ground-truth instances, {kept} predictions kept", extract(m, DefaultEnv(model_env(m))))
+            continue
         ok_counts = len(E.positive_pairs) == F * A and len(E.false_negatives) == 0
         rep.record("F1-every-instance-matched", "unsat" if ok_counts else "sat")
         if not ok_counts:
@@ -568,7 +583,8 @@ def replay(cfg, inputs, obligation):
         pairs = []
         for f in range(F):
             g = [np.array(unjson_float(inputs["gt"][f"g{f}{a}"]), dtype=np.float64) for a in range(A)]
-            pairs.append((_Frame([_I(f"g{f}{a}", g[a]) for a in range(A)], f), _Frame([_I(f"p{f}{a}", g[a].copy(), score=inputs["scores"][f"{f}{a}"]) for a in range(A)], f)))
+            keep = inputs.get("keep") or {}
+            pairs.append((_Frame([_I(f"g{f}{a}", g[a]) for a in range(A)], f), _Frame([_I(f"p{f}{a}", g[a].copy(), score=inputs["scores"][f"{f}{a}"]) for a in range(A) if keep.get(f"{f}{a}", True)], f)))
         try:
             E.positive_pairs, E.false_negatives = ev.match_frame_pairs(pairs, stddev=0.125, scale=None, threshold=0)
             E.dists_dict = ev.compute_dists(E.positive_pairs)
@@ -577,6 +593,10 @@ def replay(cfg, inputs, obligation):
             pck = E.pck_metrics(thresholds=np.array([1.0, 5.0]))
         except Exception as e:
             return obligation.startswith("F0"), f"raised {type(e).__name__}: {e}"
+        if obligation.startswith("FC"):
+            kept = sum(1 for v in (inputs.get("keep") or {}).values() if v)
+            bad = len(E.positive_pairs) + len(E.false_negatives) != F * A or len(E.positive_pairs) != kept
+            return bool(bad), f"{len(E.positive_pairs)} pairs + {len(E.false_negatives)} false negatives for {F * A} ground-truth instances ({kept} predictions kept)"
         vis = np.mean([not (np.isnan(x[0]) or np.isnan(x[1])) for v in inputs["gt"].values() for x in unjson_float(v)])
         res = {"F1": len(E.positive_pairs) != F * A or len(E.false_negatives) != 0, "F2": abs(mo - 1) > 1e-9,
                "F3": not (np.allclose(voc["oks_voc.AP"], 1, atol=1e-9) and np.allclose(voc["oks_voc.AR"], 1, atol=1e-9)),
